@@ -94,6 +94,9 @@ THEOREMS = [
     "index_shared_sha_witness", "sqlite_tree_sha_witness",
     "reopen_id", "commit_get", "addNode_keeps_keys_unique", "addNode_get",
     "commitNamed_fresh", "name_clash_witness",
+    "index_store_refines", "index_reopen_answers", "index_gitSha_first",
+    "index_shared_sha_differs", "index_rebound_key_differs", "sqlite_shared_tree_sha_differs",
+    "dict_shared_lookup_partial", "dict_cross_kind_witness",
 ]
 RULE = ("case = (source: native history | synthetic functional | synthetic non-functional, digest of the op sequence, "
         "checkpoint index, backend, before/after reopen); non-trivial = the prefix contains a sha recorded for two "
@@ -453,6 +456,11 @@ def queries_for(rng, ops):
     qs += [("b", f, r) for f, r in uniq(bkeys)] + [("b", b"nofid", b"rev-1")]
     qs += [("t", f, r) for f, r in uniq(tkeys)] + [("t", b"nofid", b"rev-1")]
     qs += [("c", r) for r in uniq(revids)] + [("c", b"norev")]
+    # cross-kind: lookup_blob_id of a key recorded for a tree and the other way round
+    bset, tset = set(bkeys), set(tkeys)
+    cross = [("b", f, r) for f, r in uniq(tkeys) if (f, r) not in bset] + [("t", f, r) for f, r in uniq(bkeys) if (f, r) not in tset]
+    rng.shuffle(cross)
+    qs += cross[:4]
     qs += [("R",), ("S",)]
     pool = uniq(revids) + [b"norev", b"null:", b"other-1"]
     for form in ("set", "list", "list"):
@@ -510,9 +518,21 @@ def index_survives_name_clash():
     return _CLASH_SAFE[0]
 
 
+def cross_kind(ops, q):
+    """a blob-id query for a key that only tree adds use, or a tree-id query for a key only blob adds use"""
+    if q[0] not in ("b", "t"):
+        return False
+    kinds = set(o[0] for o in ops if o[0] != "c" and (o[2], o[3]) == (q[1], q[2]))
+    return bool(kinds) and q[0] not in kinds
+
+
 def classify(ops, q, name, ans, ref):
     """family of a disagreement between backend `name` (answer `ans`) and the
     in-memory backend (answer `ref`) on query q after `ops`; None = unexplained"""
+    if cross_kind(ops, q) and ans in ("E", "N"):
+        last = [o[1] for o in ops if o[0] != "c" and (o[2], o[3]) == (q[1], q[2])][-1]
+        if ref == hx(last):
+            return "dict-blob-tree-ids-shared"
     if name == "index" and q[0] == "g":
         es = entries_of(ops, q[1])
         if len(es) >= 2 and ans == es[0] and set(ref.split(",")) == set(es):
@@ -632,6 +652,8 @@ def run_sequence(ctx, source, groups, functional, sink):
                     ctx.case(dict(seq=seq_id, cp=gi, backend=n, phase=phase), nontrivial=shared or gi >= 1)
                     ctx.count("phase:%s:%s" % (phase, n))
                     mname = n if n != "tdb" else "dict"
+                    if mname == "dict" and dict_shares_fileid_map():
+                        mname = "dictshared"
                     if not (clash and n == "index"):
                         sink[0].append(case); sink[1].append("run %s %s %s" % (mname, opline, qline)); sink[2].append(";".join(a))
                     if phase == "live":
@@ -674,12 +696,99 @@ def run_sequence(ctx, source, groups, functional, sink):
                                       "%s backend answers %s to %s, the in-memory backend %s" % (n, answers[n][i][:120], enc_query(q), ref[i][:120]),
                                       family=fam)
             # hypotheses of the agreement theorem, evaluated by the model
+            same = [i for i in range(len(qs)) if not cross_kind(prefix, qs[i])]      # the theorem speaks about same-kind queries
             sink[3].append((dict(base_case, checkpoint=gi, clash=clash), opline,
-                            all(answers[n][i] == ref[i] or answers[n][i] == "N" for n in names if n in ("sqlite",) for i in range(len(qs))),
-                            all(answers[n][i] == ref[i] or answers[n][i] == "N" for n in names if n in ("index",) for i in range(len(qs)))))
+                            all(answers[n][i] == ref[i] or answers[n][i] == "N" for n in names if n in ("sqlite",) for i in same),
+                            all(answers[n][i] == ref[i] or answers[n][i] == "N" for n in names if n in ("index",) for i in same)))
+            # the index backend's files against the layered model run on the write groups (refinement + reopen theorems)
+            if "index" in names and not clash:
+                raw_index_check(ctx, backs["index"], groups[:gi + 1], prefix, base_case, gi, sink)
     finally:
         for b in backs.values():
             b.close()
+
+
+# --------------------------------------------------------------------------
+# the index backend's nodes: encoding (opNodes) and the files after write groups (IdxStore.runGroups)
+
+_SHARED = [None]
+
+
+def dict_shares_fileid_map():
+    """probe (once per run): does DictGitShaMap answer lookup_blob_id from the dict that tree ids are written to?"""
+    if _SHARED[0] is None:
+        import random
+        b = Backend("dict")
+        b.apply_group([(b"probe-rev", [("t", SHAS[0], b"probe-dir", b"probe-rev"), ("c", b"probe-rev", SHAS[7], SHAS[0], None)])],
+                      random.Random(0))
+        _SHARED[0] = ask(b.cache.idmap, ("b", b"probe-dir", b"probe-rev")) == hx(SHAS[0])
+    return _SHARED[0]
+
+
+def raw_key(q):
+    if q[0] == "G":
+        return (b"git", q[1], b"X")
+    if q[0] == "B":
+        return (b"blob", q[1], q[2])
+    return (b"commit", q[1], b"X")
+
+
+def raw_index_check(ctx, back, groups, prefix, base_case, gi, sink):
+    """_get_entry of every git / blob / commit key, on the live map and on a re-opened one, against the
+    layered model applied to the same write groups"""
+    from dromedary import get_transport_from_path
+    shas = sorted(set(o[2] if o[0] == "c" else o[1] for o in prefix)) + [SHAS[9]]
+    keys = [("G", s) for s in shas]
+    keys += [("B", o[2], o[3]) for o in prefix if o[0] != "c"]        # tree keys too: no blob node must exist for them
+    keys += [("C", r) for r in sorted(set(o[1] for o in prefix if o[0] == "c"))] + [("C", b"norev")]
+    keys = sorted(set(keys))
+
+    def raw(m):
+        out = []
+        for q in keys:
+            try:
+                out.append(hx(m._get_entry(raw_key(q))))
+            except KeyError:
+                out.append("E")
+        return ";".join(out)
+    live = raw(back.cache.idmap)
+    reopened = raw(back.C.IndexGitShaMap(get_transport_from_path(back.dir).clone("index")))
+    gline = "|".join(";".join(enc_op(o) for _r, ops in g for o in ops) or "-" for g in groups)
+    if any(not [o for _r, ops in g for o in ops] for g in groups):
+        return                      # an empty write group has no encoding in the line protocol
+    qline = ";".join(":".join([q[0]] + [hx(x) for x in q[1:]]) for q in keys)
+    case = dict(base_case, backend="index", checkpoint=gi, raw_nodes=True)
+    ctx.count("raw-index-checkpoints")
+    sink[4].append((case, "groups %s %s" % (gline, qline), "%s %s" % (live, reopened)))
+    if live != reopened:
+        ctx.violation(case, "index backend: raw index entries differ after re-opening the directory")
+
+
+def nodes_check(ctx, ops, sink):
+    """the _add_node calls IndexCacheUpdater.add_object makes for one op, against opNodes"""
+    b = Backend("index")
+    m = b.cache.idmap
+    m.start_write_group()
+    rec = []
+    orig = m._add_node
+
+    def spy(key, value):
+        rec.append((key, value))
+        return orig(key, value)
+    m._add_node = spy
+    try:
+        for o in ops:
+            del rec[:]
+            u = b.cache.get_updater(_Rev(o[1] if o[0] == "c" else o[3]))
+            if o[0] == "c":
+                u.add_object(_Obj(b"commit", o[2], o[3]), {} if o[4] is None else {"testament3-sha1": o[4]}, None)
+            else:
+                u.add_object(("blob" if o[0] == "b" else "tree", o[1]), (o[2], o[3]), "p")
+            impl = ";".join("%s:%s:%s=%s" % (hx(k[0]), hx(k[1]), hx(k[2]), hx(v)) for k, v in rec)
+            sink[0].append(dict(nodes_of=enc_op(o))); sink[1].append("nodes " + enc_op(o)); sink[2].append(impl)
+            ctx.count("nodes-ops")
+    finally:
+        m.abort_write_group()
 
 
 # --------------------------------------------------------------------------
@@ -750,7 +859,7 @@ def run_idx_script(ctx, items, sink):
 def run(ctx, nnative=None, nsyn=None):
     nnative = nnative or ctx.pick(4, 40)
     nsyn = nsyn or ctx.pick(40, 500)
-    sink = ([], [], [], [])
+    sink = ([], [], [], [], [])
     ctx.extra["backends"] = available_backends()
     ctx.extra["index_survives_name_clash"] = index_survives_name_clash()
     if not index_survives_name_clash():
@@ -787,11 +896,36 @@ def run(ctx, nnative=None, nsyn=None):
             ok_sq, ok_ix = rep.split(" ") if " " in rep else ("?", "?")
             ctx.traces += 1
             ctx.count("hyp:sqlite=%s,index=%s" % (ok_sq, ok_ix))
-            # sha1s() of sqlite is broken independently of the hypothesis: ignore that query here
             if ok_ix == "T" and not ix_agrees and not case.get("clash"):
                 ctx.mismatch(case, "index disagrees with dict", "okSeq okIndex holds (agreement proved)", line="hyp " + opline)
+            if ok_sq == "T" and not sq_agrees:
+                ctx.mismatch(case, "sqlite disagrees with dict", "okSeq okSqlite holds (agreement proved)", line="hyp " + opline)
+            # converse theorems (index_shared_sha_differs, index_rebound_key_differs, sqlite_shared_tree_sha_differs):
+            # for functional sequences a failed hypothesis means a visible disagreement at the first failing add;
+            # counted, since a checkpoint may lie after later adds
+            if ok_ix == "F":
+                ctx.count("hyp-converse:index:%s" % ("disagrees" if not ix_agrees else "agrees"))
+            if ok_sq == "F":
+                ctx.count("hyp-converse:sqlite:%s" % ("disagrees" if not sq_agrees else "agrees"))
+    # node encoding of every kind of op (commit with / without testament, blob, tree)
+    seen_ops = {}
+    for line in sink[1]:
+        if line.startswith("run "):
+            for tok in line.split(" ")[2].split(";"):
+                if tok != "-":
+                    seen_ops.setdefault(tok, dec_op(tok))
+    sample = sorted(seen_ops)
+    ctx.rng.shuffle(sample)
+    nodes_check(ctx, [seen_ops[k] for k in sample[:ctx.pick(150, 1500)]], sink)
+    if sink[4]:
+        reps = ctx.model([x[1] for x in sink[4]])
+        for (case, line, impl), rep in zip(sink[4], reps):
+            ctx.traces += 1
+            if " ".join(rep.split(" ")[:2]) != impl:
+                ctx.mismatch(case, impl, rep, line=line, tie="T2 index files vs IdxStore.runGroups (live and re-opened)")
     if sink[1]:
         ctx.diff(sink[0], sink[1], sink[2])
+    ctx.extra["dict_shares_fileid_map"] = dict_shares_fileid_map()
 
 
 def dec_op(s):
@@ -818,7 +952,7 @@ def widen(ctx):
 
 
 def replay(ctx, case):
-    sink = ([], [], [], [])
+    sink = ([], [], [], [], [])
     if "idx_script" in case:
         items = []
         for t in case["idx_script"]:
